@@ -171,7 +171,8 @@ EXTRA5 = {
  'C10': 'Round 5: (P)SUBSCRIBE/(P)UNSUBSCRIBE inside MULTI are refused (process_refused, dispatchBody_refused); life-cycle cases with coinciding channel / pattern names. ',
  'C12': 'Round 5, the well-lockedness hypothesis established statically for the current source (tie (a)): tools/gen_locks.py extracts, per method and nested function of FakeSocket / AsyncFakeSocket, the shared-state accesses and call edges with their lexical lock status (Generated/Locks); '
         'Bridge/Locks proves locks_sync_disciplined / locks_async_disciplined / locks_tables_meaningful on the generated tables; FR.Props.C12l.disciplined_sound: if the check passes, every access at the end of every call path of any length from every root happens with the lock held or is one of four '
-        'benign accesses quoted from the code; bodies_run_under_the_lock. Scheduler plans: an EXEC with blocking pops inside never releases the lock half-way; threads started by the implementation are traced (acq-outside-command). ',
+        'benign accesses quoted from the code; bodies_run_under_the_lock. FR.Props.C12t links the table to the trace model: an operational semantics of one thread executing a command through the table (Exec), exec_accesses_locked (for a disciplined table every trace of every execution from a root has no discipline violation except the listed benign reads; brackets are well-formed), '
+        'single_thread_wellLocked_partial (wellLocked holds for such a trace, i.e. the hypothesis of welllocked_serial / linearization_exists), and the two local lemmas of the interleaving argument (other_thread_frame, own_event_verdict: only acq-while-held is non-local, which is the mutual exclusion of the lock itself). Scheduler plans: an EXEC with blocking pops inside never releases the lock half-way; threads started by the implementation are traced (acq-outside-command). ',
  'C13': 'Round 5 (FR.Props.C13w, 17 theorems): the frame and non-interference theorems lifted from single requests to RAW WRITES and to histories containing them: sendall_frame (a write whose processed requests are none of SELECT / SWAPDB / MOVE / FLUSHALL / EXEC / EVAL / EVALSHA leaves every other database identical - any pending buffer, any number of pipelined or split requests), '
         'send_noninterference, history_noninterference_send / history_independent_of_other_dbs_send; tightness witness pipelined_flushall_touches_other_db. ',
  'C14': 'Round 5 (FR.Props.C14p, 21 theorems): the order sentence of the property - a write to a parked connection commutes with the retry task and with the time-out (buffered_then_wake_eq_wake_then_send, buffered_then_timeout_eq_timeout_then_send), '
